@@ -112,6 +112,7 @@ func runC14(c *Ctx) {
 	rep.Meta("cases: every serialization pair the library offers (PKCS#8 PEM with/without password, PKIX public PEM, hex private/public, compressed point, DER private/public structures, ASN.1 signature, ASN.1 ciphertext) over key classes with 1..3 leading zero bytes in d, x, y and odd hex-digit counts, password classes {nil, empty, ASCII, UTF-8, 1 KiB}, wrong passwords (one character, case, length, empty, nil), (r,s) classes (high bit set, short, 1, n-1), ciphertexts with short coordinates; TLS loaders X509KeyPair, LoadX509KeyPair, GMX509KeyPairs, LoadGMX509KeyPairs, GMX509KeyPairsSingle, LoadGMX509KeyPair with matching / mismatching / swapped pairs (SM2, RSA, P-256). Oracle: value equality (d, x, y by reference), independent PBES2 decryption of gmsm's encrypted PKCS#8, accept-iff-match for loaders. Distinct non-trivial = distinct (form, key class, password class / pair class).",
 		300, []string{"ref SM2 public-key derivation", "x/crypto/pbkdf2 + crypto/aes for the independent PKCS#8 decryption", "crypto/x509 for RSA/ECDSA certificates"},
 		[]string{"gmsm's own CreateCertificate is used to make SM2 certificates for the loaders (C09 checks it)"})
+	held := &mon.Held{Max: 20000} // results of the serializers, re-checked at the end
 	keys := keyClasses(c.Rng("keys"), c.Q(8, 400), true)
 	// odd hex-digit count: d whose top nibble is zero
 	{
@@ -146,7 +147,10 @@ func runC14(c *Ctx) {
 			var pemB []byte
 			var err error
 			var back *sm2.PrivateKey
-			if pi := mon.Guard(func() { pemB, err = gx509.WritePrivateKeyToPem(k.priv(), pw.p) }); pi != nil || err != nil {
+			if pi := mon.Guard(func() {
+				pemB, err = gx509.WritePrivateKeyToPem(k.priv(), pw.p)
+				held.Keep("WritePrivateKeyToPem", pemB)
+			}); pi != nil || err != nil {
 				rep.Violation("C14/WritePrivateKeyToPem/fails/pw="+pw.cls, fmt.Sprint(pi, err), w(nil))
 				rep.Eval(cls)
 				continue
@@ -223,7 +227,10 @@ func runC14(c *Ctx) {
 			var der []byte
 			var err error
 			var back *sm2.PrivateKey
-			mon.Guard(func() { der, err = gx509.MarshalSm2UnecryptedPrivateKey(k.priv()) })
+			mon.Guard(func() {
+				der, err = gx509.MarshalSm2UnecryptedPrivateKey(k.priv())
+				held.Keep("MarshalSm2UnecryptedPrivateKey", der)
+			})
 			if err == nil {
 				if pi := mon.Guard(func() { back, err = gx509.ParsePKCS8UnecryptedPrivateKey(der) }); pi != nil || err != nil || !sameKey(back, k) {
 					rep.Violation("C14/PKCS8-DER/round-trip/"+k.cls, fmt.Sprint(pi, err), w(map[string]interface{}{"der": mon.Hex(der)}))
@@ -260,7 +267,7 @@ func runC14(c *Ctx) {
 			var pemB []byte
 			var err error
 			var back *sm2.PublicKey
-			if pi := mon.Guard(func() { pemB, err = gx509.WritePublicKeyToPem(k.pub()) }); pi != nil || err != nil {
+			if pi := mon.Guard(func() { pemB, err = gx509.WritePublicKeyToPem(k.pub()); held.Keep("WritePublicKeyToPem", pemB) }); pi != nil || err != nil {
 				rep.Violation("C14/WritePublicKeyToPem/fails", fmt.Sprint(pi, err), w(nil))
 			} else if pi := mon.Guard(func() { back, err = gx509.ReadPublicKeyFromPem(pemB) }); pi != nil || err != nil || !samePub(back, k) {
 				rep.Violation("C14/PublicKeyPem/round-trip/"+k.cls, fmt.Sprint(pi, err), w(map[string]interface{}{"pem": string(pemB)}))
@@ -309,7 +316,7 @@ func runC14(c *Ctx) {
 		{
 			var cp []byte
 			var pb *sm2.PublicKey
-			if pi := mon.Guard(func() { cp = sm2.Compress(k.pub()) }); pi != nil {
+			if pi := mon.Guard(func() { cp = sm2.Compress(k.pub()); held.Keep("Compress", cp) }); pi != nil {
 				rep.Violation("C14/Compress/panic/"+pi.Func, pi.Value, w(nil))
 			} else if pi := mon.Guard(func() { pb = sm2.Decompress(cp) }); pi != nil {
 				rep.Violation("C14/Decompress/panic/"+pi.Func, pi.Value, w(map[string]interface{}{"compressed": mon.Hex(cp)}))
@@ -392,9 +399,13 @@ func runC14(c *Ctx) {
 			var err error
 			var r2, s2 *big.Int
 			w := map[string]interface{}{"r": rv.Text(16), "s": sv.Text(16)}
-			if pi := mon.Guard(func() { der, err = sm2.SignDigitToSignData(rv, sv) }); pi != nil || err != nil {
+			if pi := mon.Guard(func() { der, err = sm2.SignDigitToSignData(rv, sv); held.Keep("SignDigitToSignData", der) }); pi != nil || err != nil {
 				rep.Violation("C14/SignDigitToSignData/fails", fmt.Sprint(pi, err), w)
-			} else if pi := mon.Guard(func() { r2, s2, err = sm2.SignDataToSignDigit(der) }); pi != nil || err != nil || r2.Cmp(rv) != 0 || s2.Cmp(sv) != 0 {
+			} else if pi := mon.Guard(func() {
+				r2, s2, err = sm2.SignDataToSignDigit(der)
+				held.KeepInt("SignDataToSignDigit.r", r2)
+				held.KeepInt("SignDataToSignDigit.s", s2)
+			}); pi != nil || err != nil || r2.Cmp(rv) != 0 || s2.Cmp(sv) != 0 {
 				rep.Violation("C14/Signature-ASN1/round-trip", fmt.Sprint(pi, err), w)
 			} else if r3, s3, ok := strictDERSig(der); !ok || r3.Cmp(rv) != 0 || s3.Cmp(sv) != 0 {
 				rep.Violation("C14/SignDigitToSignData/not-strict-DER", mon.Hex(der), w)
@@ -431,14 +442,22 @@ func runC14(c *Ctx) {
 			var der, back []byte
 			var err error
 			w := map[string]interface{}{"raw": mon.Hex(raw), "class": cls}
-			if pi := mon.Guard(func() { der, err = sm2.CipherMarshal(raw) }); pi != nil || err != nil {
+			if pi := mon.Guard(func() { der, err = sm2.CipherMarshal(raw); held.Keep("CipherMarshal", der) }); pi != nil || err != nil {
 				rep.Violation("C14/CipherMarshal/fails", fmt.Sprint(pi, err), w)
-			} else if pi := mon.Guard(func() { back, err = sm2.CipherUnmarshal(der) }); pi != nil || err != nil || !bytes.Equal(back, raw) {
+			} else if pi := mon.Guard(func() { back, err = sm2.CipherUnmarshal(der); held.Keep("CipherUnmarshal", back) }); pi != nil || err != nil || !bytes.Equal(back, raw) {
 				rep.Violation("C14/Ciphertext-ASN1/round-trip/"+cls, fmt.Sprint(pi, err), w)
 			}
 			rep.Eval("ctasn1/" + cls)
 		}
 	}
+
+	// --- every slice and integer the serializers returned above is still what it was when returned (a result carved out
+	// of a pooled or reused buffer is overwritten by a later call; comparing right after each call never shows it)
+	for _, ch := range held.Check() {
+		rep.Violation("C14/"+strings.SplitN(ch, ":", 2)[0]+"/returned-value-changed-by-a-later-call", ch, nil)
+	}
+	rep.Count("returned_slices_and_integers_rechecked_at_the_end", int64(held.Kept()))
+	rep.Require("returned_slices_and_integers_rechecked_at_the_end", 100)
 
 	// --- TLS loaders
 	runC14Loaders(c)
@@ -454,8 +473,17 @@ func runC14Loaders(c *Ctx) {
 		key  []byte // PEM
 		k    *sm2.PrivateKey
 	}
+	// the keys behind the pairs: the forced classes first (x / y / d with 1..3 leading zero bytes, d = 1, 2, n-2 — a loader
+	// that compares encodings instead of values goes wrong exactly there), random keys after them
+	forced := keyClasses(r, 0, c.Thorough)
+	nextKey := 0
 	mkPair := func(cn string, serial int64) pair {
 		k := newSM2Key(r)
+		if nextKey < len(forced) {
+			k = forced[nextKey].priv()
+			rep.Distinct("loader-key-class/" + forced[nextKey].cls)
+			nextKey++
+		}
 		_, der, err := issueSM2(certSpec{cn: cn, serial: serial, dns: []string{cn}}, &k.PublicKey, nil, k, r)
 		if err != nil {
 			rep.Violation("C14/harness/cannot-create-certificate", err.Error(), nil)
@@ -465,6 +493,9 @@ func runC14Loaders(c *Ctx) {
 		return pair{pemBlock("CERTIFICATE", der), kp, k}
 	}
 	n := c.Q(6, 300)
+	if n < (len(forced)+1)/2+2 {
+		n = (len(forced)+1)/2 + 2 // every forced class, and at least two pairs of random keys
+	}
 	var sign, enc []pair
 	for i := 0; i < n; i++ {
 		sign = append(sign, mkPair(fmt.Sprintf("sign%d.example", i), int64(100+i)))
